@@ -38,6 +38,26 @@ def Chunk.find (F : FileV) (c : Chunk) : Int :=
   | some i => (i : Int) - c.off
   | none => -1
 
+/-- `FindTokenStatus` -/
+inductive Status
+  | found | eof
+deriving Repr, DecidableEq, Inhabited
+
+/-- `SearchState.status` -/
+def tokStatus : Tok → Status
+  | .found _ => .found
+  | .edge _ => .eof
+
+/-- `LogLine.__len__` (decides the TRUTH VALUE of a LogLine object):
+    `(end_offset - start_offset) + 1` -/
+def lineLen (l : LLine) : Int := (l.endOffset - l.startOffset) + 1
+
+/-- `LogFileDateSinceSeeker._is_line_feed(offset)`: seek, read one byte, compare with the token.
+    Approximation: for a negative offset CPython's `seek` raises; the translation answers
+    `false` (the callers pass offsets taken from `range(len(file))`). -/
+def isLineFeed (F : FileV) (off : Int) : Bool :=
+  decide (0 ≤ off) && decide (off.toNat < F.len) && F.isLF off.toNat
+
 /-- Python `//` (floor division) -/
 def floordiv (a b : Int) : Int := Int.fdiv a b
 /-- Python `%` (sign of the divisor) -/
